@@ -178,7 +178,7 @@ package sod
 //@ ensures [C03 ins.ids] in.objectIds == old(in.objectIds) && forallk(id, uint64, has(in.objectIds, id) == (old(has(in.objectIds, id)) || id == field.ObjectId))
 //@ ensures [C03 ins.entries] in.objectIds[field.ObjectId] == field && forallk(id, uint64, imp(id != field.ObjectId, in.objectIds[id] == old(in.objectIds[id])))
 //@ ensures [C02 C03 ins.wf] wfField(in)
-//@ ensures [C20 ins.array] arr(in.Index) == old(arr(in.Index)) || fresh(arr(in.Index))
+//@ ensures [C20 ins.array] (arr(in.Index) == old(arr(in.Index)) && cap(in.Index) == old(cap(in.Index)) && off(in.Index) == old(off(in.Index)) && cap(in.Index) > 0) || fresh(arr(in.Index))
 //@ atexit in.pos id := ite(id == field.ObjectId, r, ite(old(in.pos[id]) >= r, old(in.pos[id]) + 1, old(in.pos[id])))
 //@ modifies fieldIndex.Index@in, fieldIndex.pos@in, Elem[*indexedField]@arr(in.Index), MapDom[uint64,*indexedField]@in.objectIds, MapVal[uint64,*indexedField]@in.objectIds, MapCard[uint64,*indexedField]@in.objectIds
 //@ allocates Elem[*indexedField]
@@ -188,7 +188,7 @@ package sod
 //@ ensures [C02 nif.fresh] result0 != nil && fresh(result0) && result0.ObjectId == objid
 //@ ensures [C02 C19 nif.supported] (result1 == nil) == supported(value)
 //@ ensures [C02 nif.norm] imp(result1 == nil, result0.Value == norm(value) && ordv(result0.Value))
-//@ ensures [C19 nif.class] imp(result1 != nil, errIs(result1, ErrUnknownKeyType))
+//@ ensures [C19 nif.class] imp(result1 != nil, errIs(result1, ErrUnknownKeyType) && !errIs(result1, ErrConstraintUnique))
 //@ modifies nothing
 //@ allocates indexedField.Value, indexedField.ObjectId, Elem[interface{}]
 
@@ -197,7 +197,7 @@ package sod
 //@ ensures [C02 sf.fresh] k != nil && fresh(k)
 //@ ensures [C02 C19 sf.supported] (err == nil) == supported(value)
 //@ ensures [C02 sf.norm] imp(err == nil, k.Value == norm(value) && ordv(k.Value))
-//@ ensures [C19 sf.class] imp(err != nil, errIs(err, ErrUnknownKeyType))
+//@ ensures [C19 sf.class] imp(err != nil, errIs(err, ErrUnknownKeyType) && !errIs(err, ErrConstraintUnique))
 //@ modifies nothing
 //@ allocates indexedField.Value, indexedField.ObjectId, Elem[interface{}]
 
@@ -233,7 +233,7 @@ package sod
 //@ ensures [C03 Ins.ids] in.objectIds == old(in.objectIds) && forallk(id, uint64, has(in.objectIds, id) == (old(has(in.objectIds, id)) || (err == nil && id == objid)))
 //@ ensures [C03 Ins.entries] imp(err == nil, in.objectIds[objid] == f) && forallk(id, uint64, imp(id != objid, in.objectIds[id] == old(in.objectIds[id])))
 //@ ensures [C02 C03 Ins.wf] wfField(in)
-//@ ensures [C20 Ins.array] arr(in.Index) == old(arr(in.Index)) || fresh(arr(in.Index))
+//@ ensures [C20 Ins.array] err != nil || (arr(in.Index) == old(arr(in.Index)) && cap(in.Index) == old(cap(in.Index)) && off(in.Index) == old(off(in.Index)) && cap(in.Index) > 0) || fresh(arr(in.Index))
 //@ modifies fieldIndex.Index@in, fieldIndex.pos@in, Elem[*indexedField]@arr(in.Index), MapDom[uint64,*indexedField]@in.objectIds, MapVal[uint64,*indexedField]@in.objectIds, MapCard[uint64,*indexedField]@in.objectIds
 //@ allocates Elem[*indexedField], indexedField.Value, indexedField.ObjectId, Elem[interface{}]
 
@@ -248,7 +248,7 @@ package sod
 //@ ensures [C03 del.ids] in.objectIds == old(in.objectIds) && forallk(id, uint64, has(in.objectIds, id) == (old(has(in.objectIds, id)) && id != objid))
 //@ ensures [C03 del.entries] forallk(id, uint64, imp(id != objid, in.objectIds[id] == old(in.objectIds[id])))
 //@ ensures [C02 C03 del.wf] wfField(in)
-//@ ensures [C20 del.array] arr(in.Index) == old(arr(in.Index)) || fresh(arr(in.Index))
+//@ ensures [C20 del.array] (arr(in.Index) == old(arr(in.Index)) && cap(in.Index) == old(cap(in.Index)) && off(in.Index) == old(off(in.Index)) && cap(in.Index) > 0) || fresh(arr(in.Index))
 //@ atexit in.pos id := ite(old(in.pos[id]) > p, old(in.pos[id]) - 1, old(in.pos[id]))
 //@ modifies fieldIndex.Index@in, fieldIndex.pos@in, Elem[*indexedField]@arr(in.Index), MapDom[uint64,*indexedField]@in.objectIds, MapVal[uint64,*indexedField]@in.objectIds, MapCard[uint64,*indexedField]@in.objectIds
 //@ allocates Elem[*indexedField]
@@ -284,7 +284,7 @@ package sod
 //@ ensures [C02 upd.entry] imp(err == nil, fresh(in.objectIds[objid]) && in.objectIds[objid].Value == norm(value) && in.objectIds[objid].ObjectId == objid)
 //@ ensures [C02 upd.len] imp(err == nil, len(in.Index) == old(len(in.Index)))
 //@ ensures [C02 C03 upd.wf] wfField(in)
-//@ ensures [C20 upd.array] arr(in.Index) == old(arr(in.Index)) || fresh(arr(in.Index))
+//@ ensures [C20 upd.array] (arr(in.Index) == old(arr(in.Index)) && cap(in.Index) == old(cap(in.Index)) && off(in.Index) == old(off(in.Index)) && cap(in.Index) > 0) || fresh(arr(in.Index))
 //@ modifies fieldIndex.Index@in, fieldIndex.pos@in, Elem[*indexedField]@arr(in.Index), MapDom[uint64,*indexedField]@in.objectIds, MapVal[uint64,*indexedField]@in.objectIds, MapCard[uint64,*indexedField]@in.objectIds
 //@ allocates Elem[*indexedField], indexedField.Value, indexedField.ObjectId, Elem[interface{}]
 
@@ -314,3 +314,62 @@ package sod
 //@ loop 1 decreases len(fields) - rangeindex
 //@ modifies nothing
 //@ allocates fieldIndex.Name, fieldIndex.Cast, fieldIndex.Constraints, fieldIndex.Index, fieldIndex.objectIds, fieldIndex.nameSplit, fieldIndex.pos, MapDom[uint64,*indexedField], MapVal[uint64,*indexedField], MapCard[uint64,*indexedField], Elem[*indexedField]
+
+// ---- object index ----------------------------------------------------------
+
+// reflection: outside the verifier's reach; assumed contract, exercised by a bounded stand-in
+//@ func fieldByName
+//@ serves C02 C03 C06 C19
+//@ trusted "reflection-bodied (reflect.Value.FieldByName): assumed contract, checked by the bounded stand-in"
+//@ ensures ok == fieldok(dyntype(o), pathkey(fpath))
+//@ ensures imp(ok, i == proj(o.content, pathkey(fpath)) && wfval(i))
+//@ ensures imp(ok && supported(i), rank(norm(i)) == fieldrank(dyntype(o), pathkey(fpath)))
+//@ pure
+
+//@ func (*objIndex).satisfyAll
+//@ serves C03 C06 C07 C19
+//@ requires [wf] wfIndex(in) && o != nil && dyntype(o) == in.otype
+//@ ghost bad string := fn
+//@ ensures [C03 sat.iff] (err == nil) == old(forallk(f, string, imp(has(in.Fields, f), satOK(in, o, f))))
+//@ ensures [C03 sat.witness] imp(err != nil, old(has(in.Fields, bad) && !satOK(in, o, bad)))
+//@ ensures [C03 sat.unique-class] imp(errIs(err, ErrConstraintUnique), fieldok(dyntype(o), bad) && supported(proj(o.content, bad)))
+//@ ensures [C03 sat.other-class] imp(err != nil && !errIs(err, ErrConstraintUnique), !(fieldok(dyntype(o), bad) && supported(proj(o.content, bad))))
+//@ loop 1 invariant [no-error-so-far] err == nil
+//@ loop 1 invariant [visited-ok] forallk(f, string, imp(visited(f) && has(in.Fields, f), satOK(in, o, f)))
+//@ loop 1 invariant [frame] preserved(Elem[*indexedField], indexedField.Value, indexedField.ObjectId)
+//@ modifies nothing
+//@ allocates indexedField.Value, indexedField.ObjectId, Elem[*indexedField], Elem[interface{}]
+
+//@ func (*objIndex).insertOrUpdate
+//@ serves C01 C02 C03 C06 C07 C19 C20
+//@ requires [wf] wfIndex(in) && o != nil && dyntype(o) == in.otype
+//@ requires [id-room] in.i < 18446744073709551615
+//@ let u string := o.uuid
+//@ let known bool := has(in.uuids, o.uuid)
+//@ let id uint64 := ite(has(in.uuids, o.uuid), in.uuids[o.uuid], in.i)
+//@ ensures [C03 C06 iou.accept-iff] (err == nil) == old(forallk(f, string, imp(has(in.Fields, f), satOK(in, o, f))))
+//@ ensures [C06 iou.error-no-change] imp(err != nil, preserved(objIndex.i, MapDom[string,uint64], MapVal[string,uint64], MapDom[uint64,string], MapVal[uint64,string], fieldIndex.Index, fieldIndex.pos, MapDom[uint64,*indexedField], MapVal[uint64,*indexedField], Elem[*indexedField], indexedField.Value, indexedField.ObjectId))
+//@ ensures [C03 C20 iou.counter] imp(err == nil && !known, in.i == old(in.i) + 1) && imp(err != nil || known, in.i == old(in.i))
+//@ ensures [C01 iou.uuids] imp(err == nil, forallk(w, string, has(in.uuids, w) == (old(has(in.uuids, w)) || w == u)) && in.uuids[u] == id && forallk(w, string, imp(w != u, in.uuids[w] == old(in.uuids[w]))))
+//@ ensures [C01 iou.objids] imp(err == nil, forallk(k, uint64, has(in.ObjectIds, k) == (old(has(in.ObjectIds, k)) || k == id)) && in.ObjectIds[id] == u && forallk(k, uint64, imp(k != id, in.ObjectIds[k] == old(in.ObjectIds[k]))))
+//@ ensures [C02 iou.fields-same] in.Fields == old(in.Fields) && in.uuids == old(in.uuids) && in.ObjectIds == old(in.ObjectIds) && forallk(f, string, has(in.Fields, f) == old(has(in.Fields, f)) && in.Fields[f] == old(in.Fields[f]))
+//@ ensures [C02 iou.values] imp(err == nil, forallk(f, string, imp(has(in.Fields, f), in.Fields[f].objectIds[id].Value == norm(proj(o.content, f)))))
+//@ ensures [C02 C20 iou.others] imp(err == nil, forallk(f, string, imp(has(in.Fields, f), forallk(k, uint64, imp(k != id, in.Fields[f].objectIds[k] == old(in.Fields[f].objectIds[k]))))))
+//@ ensures [C03 iou.wf] imp(err == nil, wfIndex(in))
+//@ loop 1 invariant [frame-maps] preserved(MapDom[string,*fieldIndex], MapVal[string,*fieldIndex], fieldIndex.objectIds, fieldIndex.nameSplit, fieldIndex.Constraints)
+//@ loop 1 invariant [wf-all] forallk(f, string, imp(has(in.Fields, f), in.Fields[f] != nil && allocated(in.Fields[f]) && wfField(in.Fields[f]) && imp(len(in.Fields[f].Index) > 0, rank(in.Fields[f].Index[0].Value) == fieldrank(in.otype, f))))
+//@ loop 1 invariant [ids] forallk(f, string, imp(has(in.Fields, f), forallk(k, uint64, has(in.Fields[f].objectIds, k) == has(in.ObjectIds, k))))
+//@ loop 1 invariant [unvisited-sat] forallk(f, string, imp(has(in.Fields, f) && !visited(f), satOK(in, o, f)))
+//@ loop 1 invariant [visited-value] forallk(f, string, imp(has(in.Fields, f) && visited(f), in.Fields[f].objectIds[id].Value == norm(proj(o.content, f))))
+//@ loop 1 invariant [others] forallk(f, string, imp(has(in.Fields, f), forallk(k, uint64, imp(k != id, in.Fields[f].objectIds[k] == old(in.Fields[f].objectIds[k])))))
+//@ loop 1 invariant [sep] sepFields(in)
+//@ loop 2 invariant [frame-maps] preserved(MapDom[string,*fieldIndex], MapVal[string,*fieldIndex], fieldIndex.objectIds, fieldIndex.nameSplit, fieldIndex.Constraints)
+//@ loop 2 invariant [wf-all] forallk(f, string, imp(has(in.Fields, f), in.Fields[f] != nil && allocated(in.Fields[f]) && wfField(in.Fields[f]) && imp(len(in.Fields[f].Index) > 0, rank(in.Fields[f].Index[0].Value) == fieldrank(in.otype, f))))
+//@ loop 2 invariant [ids-visited] forallk(f, string, imp(has(in.Fields, f) && visited(f), forallk(k, uint64, has(in.Fields[f].objectIds, k) == (has(in.ObjectIds, k) || k == id))))
+//@ loop 2 invariant [ids-unvisited] forallk(f, string, imp(has(in.Fields, f) && !visited(f), forallk(k, uint64, has(in.Fields[f].objectIds, k) == has(in.ObjectIds, k))))
+//@ loop 2 invariant [unvisited-sat] forallk(f, string, imp(has(in.Fields, f) && !visited(f), satOK(in, o, f)))
+//@ loop 2 invariant [visited-value] forallk(f, string, imp(has(in.Fields, f) && visited(f), in.Fields[f].objectIds[id].Value == norm(proj(o.content, f))))
+//@ loop 2 invariant [others] forallk(f, string, imp(has(in.Fields, f), forallk(k, uint64, imp(k != id, in.Fields[f].objectIds[k] == old(in.Fields[f].objectIds[k])))))
+//@ loop 2 invariant [sep] sepFields(in)
+//@ modifies objIndex.i@in, MapDom[string,uint64]@in.uuids, MapVal[string,uint64]@in.uuids, MapCard[string,uint64]@in.uuids, MapDom[uint64,string]@in.ObjectIds, MapVal[uint64,string]@in.ObjectIds, MapCard[uint64,string]@in.ObjectIds, fieldIndex.Index, fieldIndex.pos, MapDom[uint64,*indexedField], MapVal[uint64,*indexedField], MapCard[uint64,*indexedField], Elem[*indexedField]
+//@ allocates indexedField.Value, indexedField.ObjectId, Elem[interface{}]
